@@ -9,7 +9,7 @@
        _decode_eattribute_value / _decode_node (value.split(); node.text or '');
      * single-valued attributes: absent / attribute / xsi:nil against the
        default value and SERIALIZE_DEFAULT_VALUES;
-     * lists of reference fragments (join, split, normalize, skip-empty) and
+     * lists of reference fragments (join, split, type-qualifier dropping, skip-empty, normalize) and
        the choice id-value-or-URI-fragment of _build_path_from;
      * one end of a many-valued bidirectional reference during load: no
        element twice, and the order of the end's own list.
@@ -56,16 +56,18 @@ Theorem C08_single_attribute_partial :
 Proof. exact single_roundtrip. Qed.
 Print Assumptions C08_single_attribute_partial.
 
-(* reference lists: fragments without blanks come back, in order, duplicates included *)
+(* reference lists: fragments that hold no blank and no '#' (what stays inside the resource) come
+   back, in order, duplicates included, whatever prefixes are registered *)
 Theorem C08_reference_list_partial :
-  forall frags : list str, Forall good frags -> decode_refs (encode_refs frags) = frags.
+  forall (known : str -> bool) (frags : list str),
+  Forall local frags -> decode_refs known (encode_refs frags) = frags.
 Proof. exact refs_roundtrip. Qed.
 Print Assumptions C08_reference_list_partial.
 
 (* ... and _build_path_from only hands out such fragments (id values that would not read back are not used) *)
 Theorem C08_reference_fragment_fit :
-  forall (id : option str) (uri_fragment : str), good uri_fragment -> good (ref_fragment id uri_fragment).
-Proof. exact ref_fragment_good. Qed.
+  forall (id : option str) (uri_fragment : str), local uri_fragment -> local (ref_fragment id uri_fragment).
+Proof. exact ref_fragment_local. Qed.
 Print Assumptions C08_reference_fragment_fit.
 
 (* a many-valued end of a bidirectional reference: whatever the other end linked before and
